@@ -44,6 +44,10 @@ def gen_mv(rng, d, canon, pga_point_grade=None, allow_array=True, arm=None):
         m['cont'] = 'nd'
         m['dtype'] = 'int64'
         m['vals'] = [gen_value(rng, intonly=True) for _ in keys]
+    if m['cont'] == 'nd' and m['dtype'] == 'float64' and rng.random() < 0.25:
+        m['view'] = rng.choice(['strided', 'row'])        # the coefficient array is a view into a larger array
+    if m['cont'] == 'list' and rng.random() < 0.15:
+        m['npscalars'] = True                             # list of numpy scalars (what numpy arithmetic leaves behind)
     if allow_array and rng.random() < 0.15:
         shape = rng.choice([[2], [3], [2, 2], [1], [1, 2]])
         size = 1
